@@ -25,7 +25,12 @@ def family_programs(ctx, quick):
             seen.add(k)
             tables.append(v["table"])
     if quick:
-        tables = [t for t in tables if hashlib.sha1((core.canon(t) + str(ctx.seed)).encode()).digest()[0] < 26] or tables[:10]
+        keep = [t for t in tables if hashlib.sha1((core.canon(t) + str(ctx.seed)).encode()).digest()[0] < 8]
+        # always one table per (level, type) combination of the first error
+        first = {}
+        for t in tables:
+            first.setdefault((t[0]["level"], t[0]["type"], len(t)), t)
+        tables = list({core.canon(t): t for t in keep + list(first.values())}.values())
     for t in tables:
         designs, _, _ = c05.build([{"table": t}])
         cls = "error/api-level-user-type" if any(e["level"] == "api" and e["type"] == "custom" for e in t) else "plain"
@@ -33,10 +38,10 @@ def family_programs(ctx, quick):
     vs = ctx.gen("mc/MC_Security", "gen/Gen_Security.cfg", label="Gen Security (programs)").vectors
     designs, _ = c06.build(vs)
     if quick:
-        designs = designs[::4]
+        designs = designs[::8]
     for d in designs:
         out.append((d, "plain", "security:%s" % d["api"]["name"]))
-    for g in ("G1", "G2", "G3", "G4"):
+    for g in ("G1", "G2", "G3", "G4", "G5", "G6"):
         out.append((c08.design(g), "views/recursive-result-type" if g == "G4" else "plain", "views:" + g))
     return out
 
@@ -69,10 +74,10 @@ def run(ctx):
                        "non-body location, a nesting, a default or a rule; distinct = canonical JSON of the shape")
     ctx.assumptions += ["'type-checks' is judged by `go build` (go/types); goa.design/clue (imported by example output, not available offline) is replaced by a type-level stub in stubs/clue"]
     ctx.mc("mc/MC_Toolchain", label="MC Toolchain")
-    frac = float(os.environ.get("VERIF_FRAC") or (0.2 if quick else 1.0))
+    frac = float(os.environ.get("VERIF_FRAC") or (0.03 if quick else 1.0))
     shapes, seen = [], set()
     for fam in ("req", "res"):
-        for v in hc.sample_shapes(hc.gen_vectors(ctx, fam, 1, 1), frac, ctx.seed):
+        for v in hc.sample_shapes(hc.gen_vectors(ctx, fam, 1, 1), frac, ctx.seed, strata="coarse"):
             k = hg.shape_key(v)
             if k not in seen:
                 seen.add(k)
